@@ -24,22 +24,27 @@ SIGS = ["shape", "shape_name", "shape_kwonly", "shape_varkw"]
 
 
 class Factory:
-    """Returns a fixed tensor and logs every invocation."""
+    """Returns a fixed tensor and logs every invocation. `kind` is the Python callable kind: a plain
+    function, a functools.partial, a bound method or an instance with __call__ (factories of one kind
+    share a Python type but not a signature)."""
 
-    def __init__(self, tensor, sig):
+    def __init__(self, tensor, sig, kind="function"):
         self.tensor = tensor
         self.sig = sig
+        self.kind = kind
         self.log = []
         log = self.log
 
-        class _T:
-            def __call__(self_inner):
-                return S.wrap(S.plain(tensor).copy())
+        def fresh():
+            return S.wrap(S.plain(tensor).copy())
 
-        fresh = _T()
         if sig == "shape":
 
             def f(shape):
+                log.append((shape, {}))
+                return fresh()
+
+            def fp(tag, shape):
                 log.append((shape, {}))
                 return fresh()
 
@@ -49,9 +54,17 @@ class Factory:
                 log.append((shape, {"name": name}))
                 return fresh()
 
+            def fp(tag, shape, name=None):
+                log.append((shape, {"name": name}))
+                return fresh()
+
         elif sig == "shape_kwonly":
 
             def f(shape, *, arg_index, signature):
+                log.append((shape, {"arg_index": arg_index, "signature": signature}))
+                return fresh()
+
+            def fp(tag, shape, *, arg_index, signature):
                 log.append((shape, {"arg_index": arg_index, "signature": signature}))
                 return fresh()
 
@@ -61,7 +74,34 @@ class Factory:
                 log.append((shape, dict(kw)))
                 return fresh()
 
-        self.fn = f
+            def fp(tag, shape, **kw):
+                log.append((shape, dict(kw)))
+                return fresh()
+
+        if kind == "function":
+            self.fn = f
+        elif kind == "partial":
+            import functools
+
+            self.fn = functools.partial(fp, "tag")
+        elif kind == "method":
+
+            class Holder:
+                pass
+
+            Holder.make = fp  # first parameter plays the role of self
+            self.fn = Holder().make
+        else:
+
+            class Callable:
+                pass
+
+            Callable.__call__ = fp
+            self.fn = Callable()
+
+
+KINDS = ["function", "function", "partial", "method", "callable-object"]
+HISTORY = []  # (kind, signature) of every factory this process has handed to einx, in order
 
 
 def kwargs_ok(sig, kw, op, index):
@@ -86,11 +126,15 @@ def work(item):
 
     op = getattr(einx, case["op"])
     arrs = harness.build_inputs(case)
-    facs = {i: Factory(arrs[i], sigs[k]) for k, i in enumerate(subset)}
+    krng = random.Random(f"{case['desc']}:{subset}:{sigs}")
+    kinds = [krng.choice(KINDS) for _ in subset]
+    facs = {i: Factory(arrs[i], sigs[k], kinds[k]) for k, i in enumerate(subset)}
+    history_before = list(HISTORY)
+    HISTORY.extend((kinds[k], sigs[k]) for k in range(len(subset)))
     kw = dict(case["kwargs"])
     kw.update(case["opts"])
     kw["backend"] = "numpy"  # a call whose tensors are all factories has nothing to infer a backend from
-    res = {"op": case["op"], "desc": case["desc"], "subset": list(subset), "sigs": list(sigs), "kwargs": runner.jsonable(case["kwargs"])}
+    res = {"op": case["op"], "desc": case["desc"], "subset": list(subset), "sigs": list(sigs), "kinds": kinds, "history": history_before[-40:], "kwargs": runner.jsonable(case["kwargs"])}
 
     def args_with_factories():
         return [facs[i].fn if i in facs else S.wrap(S.plain(a).copy()) for i, a in enumerate(arrs)]
@@ -156,55 +200,55 @@ def work(item):
     return res
 
 
-REPLAY = r'''#!/venv/bin/python
-"""Replay (C13): factories vs. tensors through the public API on plain numpy."""
+REPLAY = r'''#!/verif/.venv/bin/python
+"""Replay (C13): factories (same callable kinds and signatures, after the same sequence of earlier factory
+kinds in the process) vs. tensors through the public API on plain numpy."""
 import json, os, sys
 HASHSEED = "{hashseed}"
 if os.environ.get("PYTHONHASHSEED") != HASHSEED:
     os.environ["PYTHONHASHSEED"] = HASHSEED
     os.execv(sys.executable, [sys.executable] + sys.argv)
 import numpy as np
-sys.path.insert(0, "/repo")
+sys.path.insert(0, "/verif"); sys.path.insert(0, "/repo")
 import einx
+from checks import c13
+from vlib import symarray as S
+S.wrap = lambda a: a  # plain numpy in the replay
+S.plain = lambda a: a
 SPEC = json.loads(r"""{spec}""")
 def tup(v): return tuple(tup(x) for x in v) if isinstance(v, list) else v
 args = [np.array(a["data"], dtype=a["dtype"]).reshape(a["shape"]) for a in SPEC["args"]]
 kw = {{k: tup(v) for k, v in SPEC["kwargs"].items()}}
 kw["backend"] = "numpy"
-logs = {{}}
-def mk(i, sig):
-    log = logs.setdefault(i, [])
-    t = lambda: args[i].copy()
-    if sig == "shape":
-        def f(shape): log.append((shape, {{}})); return t()
-    elif sig == "shape_name":
-        def f(shape, name=None): log.append((shape, {{"name": name}})); return t()
-    elif sig == "shape_kwonly":
-        def f(shape, *, arg_index, signature): log.append((shape, {{"arg_index": arg_index}})); return t()
-    else:
-        def f(shape, **k): log.append((shape, {{x: y for x, y in k.items() if x != "signature"}})); return t()
-    return f
-fa = list(args)
-for i, sig in zip(SPEC["subset"], SPEC["sigs"]):
-    fa[i] = mk(i, sig)
+# earlier factories of this process (only their Python kind and signature matter)
+for kind, sig in SPEC["history"]:
+    f = c13.Factory(np.zeros((2,)), sig, kind)
+    try: einx.add("a, a", np.zeros((2,)), f.fn, backend="numpy")
+    except Exception as e: print("history call failed:", kind, sig, type(e).__name__)
+facs = {{i: c13.Factory(args[i], sig, kind) for i, sig, kind in zip(SPEC["subset"], SPEC["sigs"], SPEC["kinds"])}}
+fa = [facs[i].fn if i in facs else a for i, a in enumerate(args)]
 op = getattr(einx, SPEC["op"])
 bad = []
-op(SPEC["desc"], *fa, graph=True, **kw)
-if any(len(v) for v in logs.values()): bad.append("invoked for graph=True: %r" % logs)
-r1 = op(SPEC["desc"], *fa, **kw)
-n1 = [len(logs[i]) for i in SPEC["subset"]]
-r1b = op(SPEC["desc"], *fa, **kw)
-n2 = [len(logs[i]) for i in SPEC["subset"]]
-r2 = op(SPEC["desc"], *[a.copy() for a in args], **kw)
-if n1 != [1] * len(n1) or n2 != [2] * len(n2): bad.append("invocation counts %r then %r" % (n1, n2))
+try:
+    op(SPEC["desc"], *fa, graph=True, **kw)
+    if any(len(f.log) for f in facs.values()): bad.append("invoked for graph=True")
+    r1 = op(SPEC["desc"], *fa, **kw)
+    n1 = [len(facs[i].log) for i in SPEC["subset"]]
+    r1b = op(SPEC["desc"], *fa, **kw)
+    n2 = [len(facs[i].log) for i in SPEC["subset"]]
+    r2 = op(SPEC["desc"], *[a.copy() for a in args], **kw)
+    if n1 != [1] * len(n1) or n2 != [2] * len(n2): bad.append("invocation counts %r then %r" % (n1, n2))
+    l = lambda r: list(r) if isinstance(r, (tuple, list)) else [r]
+    for a, b in zip(l(r1) + l(r1b), l(r2) + l(r2)):
+        if not np.array_equal(np.asarray(a), np.asarray(b)): bad.append("result with factory != result with tensor")
+except Exception as e:
+    bad.append("call with factories raised %s: %s" % (type(e).__name__, str(e)[:200].replace(chr(10), " | ")))
 for i in SPEC["subset"]:
-    for shp, k in logs[i]:
+    for shp, k in facs[i].log:
+        print("factory", i, facs[i].kind, facs[i].sig, "called with", shp, sorted(k))
         if tuple(shp) != tuple(SPEC["args"][i]["shape"]) or not all(type(s) is int for s in shp): bad.append("argument %d got shape %r, expected %r" % (i, shp, SPEC["args"][i]["shape"]))
-        print("factory", i, "called with", shp, k)
-l = lambda r: list(r) if isinstance(r, (tuple, list)) else [r]
-for a, b in zip(l(r1) + l(r1b), l(r2) + l(r2)):
-    if not np.array_equal(np.asarray(a), np.asarray(b)): bad.append("result with factory %r != result with tensor %r" % (np.asarray(a).tolist(), np.asarray(b).tolist()))
-print("call: einx.%s(%r) factories at %r" % (SPEC["op"], SPEC["desc"], SPEC["subset"]))
+        if not c13.kwargs_ok(facs[i].sig, k, SPEC["op"], i): bad.append("argument %d: factory(%s, %s) received keywords %r" % (i, facs[i].kind, facs[i].sig, sorted(k)))
+print("call: einx.%s(%r) factories at %r kinds %r" % (SPEC["op"], SPEC["desc"], SPEC["subset"], SPEC["kinds"]))
 if bad:
     print("REPRODUCED: " + "; ".join(bad)); sys.exit(1)
 print("NOT-REPRODUCED"); sys.exit(0)
@@ -214,7 +258,7 @@ print("NOT-REPRODUCED"); sys.exit(0)
 def write_replay(case, r, conc):
     import hashlib, json, os
 
-    spec = {"op": case["op"], "desc": case["desc"], "args": [replay.enc_array(a, k) for a, k in zip(conc, case["kinds"])], "kwargs": runner.jsonable(dict(case["kwargs"], **case["opts"])), "subset": r["subset"], "sigs": r["sigs"]}
+    spec = {"op": case["op"], "desc": case["desc"], "args": [replay.enc_array(a, k) for a, k in zip(conc, case["kinds"])], "kwargs": runner.jsonable(dict(case["kwargs"], **case["opts"])), "subset": r["subset"], "sigs": r["sigs"], "kinds": r.get("kinds", ["function"] * len(r["subset"])), "history": r.get("history", [])}
     text = json.dumps(runner.jsonable(spec))
     os.makedirs(os.path.join(runner.REPLAY_DIR, PROP), exist_ok=True)
     path = os.path.join(runner.REPLAY_DIR, PROP, "fact_" + hashlib.sha1(text.encode()).hexdigest()[:12] + ".py")
@@ -299,7 +343,7 @@ def main():
         elif st_ == "violation?" or st_ == "discipline-violation":
             conc = replay.clamp_coords(case, replay.conc_arrays(case, r.get("model_inputs") or [np.zeros(shape(expand(e)), dtype=object) for e in case["ins"]]))
             path = write_replay(case, r, conc)
-            ok, out = replay.run_script(path)
+            ok, out = replay.run_script(path, python=replay.VENV_PY)
             st_ = "violation" if ok else "not-reproduced"
             r["replay"], r["replay_out"] = path, out[-1200:]
         status[st_] += 1
